@@ -45,6 +45,8 @@ class Execution:
     def __init__(self, script, variant='exc', alloc=False, fill=None, label=''):
         self.script, self.variant, self.alloc, self.fill, self.label = script, variant, alloc, fill, label
         self.events, self.rc, self.err = None, None, None
+        self.oracle = None     # None: as the check says; True/False: judge this execution's values with the oracle or not
+        self.group = None      # executions of one group stay in one TLC batch and share the memo (reset keeps it)
 
 
 def run_executions(execs, wd, jobs=16):
@@ -93,7 +95,7 @@ def tlc_validate(log_path, build, relax=(), oracle=False, timeout=900, cfg='Masa
         states = re.findall(r'^State (\d+):', out, flags=re.M)
         n = max(int(s) for s in states) if states else 1
         return False, n - 2, out + '\nPROPERTY-VIOLATED %s' % (m2.group(2) or m2.group(3))
-    raise InfraError('TLC failed (rc=%s):\n%s' % (rc, out[-3000:]))
+    open('/tmp/tlc_fail.log','w').write(out); raise InfraError('TLC failed (rc=%s):\n%s' % (rc, out[-3000:]))
 
 
 class Rejection:
@@ -117,9 +119,11 @@ def validate_executions(execs, wd, relax=(), oracle=False, batch_lines=4000, job
     batches, cur, cur_n, cur_b = [], [], 0, None
     for e in execs:
         n = len(e.events) + 1
-        if cur and (cur_n + n > batch_lines or e.variant != cur_b):
+        same_group = cur and e.group is not None and cur[-1].group == e.group
+        orc = oracle if e.oracle is None else (e.oracle and oracle)
+        if cur and not same_group and (cur_n + n > (batch_lines if not orc else min(batch_lines, 500)) or (e.variant, orc) != cur_b):
             batches.append(cur); cur, cur_n = [], 0
-        cur.append(e); cur_n += n; cur_b = e.variant
+        cur.append(e); cur_n += n; cur_b = (e.variant, orc)
     if cur:
         batches.append(cur)
 
@@ -142,10 +146,12 @@ def validate_executions(execs, wd, relax=(), oracle=False, batch_lines=4000, job
             with open(path, 'w') as f:
                 for k, e in enumerate(pending):
                     if k:
-                        f.write('{"op":"reset"}\n'); owners.append((None, None))
+                        keep = e.group is not None and pending[k - 1].group == e.group
+                        f.write('{"op":"reset","keep":%s}\n' % ('true' if keep else 'false')); owners.append((None, None))
                     for j, ev in enumerate(e.events):
                         f.write(json.dumps(ev) + '\n'); owners.append((k, j))
-            ok, matched, out = tlc_validate(path, build_of(pending[0].variant), relax, oracle, timeout, extra_env=extra_env)
+            borc = oracle if pending[0].oracle is None else (pending[0].oracle and oracle)
+            ok, matched, out = tlc_validate(path, build_of(pending[0].variant), relax, borc, timeout, extra_env=extra_env)
             if ok:
                 lines_ok += len(owners)
                 break
@@ -169,7 +175,7 @@ def validate_executions(execs, wd, relax=(), oracle=False, batch_lines=4000, job
                     with open(single, 'w') as f:
                         for ev2 in exe.events[:j + 1]:
                             f.write(json.dumps(ev2) + '\n')
-                    ok2, m2, _ = tlc_validate(single, build_of(exe.variant), tuple(relax) + (g,), oracle, timeout, extra_env=extra_env)
+                    ok2, m2, _ = tlc_validate(single, build_of(exe.variant), tuple(relax) + (g,), borc, timeout, extra_env=extra_env)
                     if ok2 or m2 > j:
                         reason = g
                         break
